@@ -247,7 +247,24 @@ for _k, _v in _ROUND7.items():
 
 # dimensions added after the eighth round
 _ROUND8 = {
-    "C13": "Every call shape is also opened on a context that is already cancelled or past its deadline and the client-visible outcome class is compared with real gRPC.",
+    "C02": "The relative / delta updates the tree's own servers build from interceptors (fan speed, count, speaker volume) are driven with an interfering update forced into their optimistic window.",
+    "C03": "An enumeration keeps a backpressured peer of the observed reader quiet for 5.6 s of real time (longer than any send budget) before it resumes.",
+    "C04": "A fifth of the collection subscribers are filtered views.",
+    "C05": "Pooled caller-owned mask objects are also passed as WithMoreUpdateMask.",
+    "C06": "A quarter of the collection subscribers are filtered views next to differently masked neighbours.",
+    "C07": "Bookings carry timestamps in non-canonical form and are read through the server's period filter; read masks that are not valid for the type (including '*') are used on models that edit their seed.",
+    "C09": "Lossy subscribers may have a backpressured filtered view as a neighbour, registered first.",
+    "C10": "Enumerations cover a backpressured subscriber quiet for 5.6 s next to a single-item subscription of a removed item, and an abandoned lossy subscriber with up to 6000 distinct ids pending when it cancels.",
+    "C11": "Wrapped devices are called with requests that share one payload and one mask object while callers edit the responses they own; two collections generate ids at the same time.",
+    "C12": "Half of the registry cases have a change listener that consults the router from inside the callback.",
+    "C13": "Every call shape is also opened on a context that is already cancelled or past its deadline and the client-visible outcome class is compared with real gRPC; streaming handlers may set their metadata through the context functions.",
+    "C14": "The client edits the responses it received; the next Get must be unchanged.",
+    "C15": "Pagers include models with writable fields configured whose items get generated ids.",
+    "C16": "One side of a pair may be held as a dynamicpb message over the same descriptor.",
+    "C17": "A rapid layer lets the subscriber of a group Pull go away during a delivery (member streams that deliver, Send failing or the context ending).",
+    "C18": "A race-built layer runs the mode operations on one shared mode from many goroutines and compares with the results on private copies.",
+    "C19": "Masked UpdateMode calls may carry a path with surrounding white space.",
+    "C20": "REJECTED acknowledgements carry a reason that is compared in the response and in the store.",
 }
 for _k, _v in _ROUND8.items():
     META[_k]["text"] += " " + _v
